@@ -1,6 +1,7 @@
 package iscp
 
 import (
+	"time"
 	"context"
 	"sync"
 
@@ -392,4 +393,311 @@ func zzCount(s *UpstreamState) int {
 		n += len(g.DataPoints)
 	}
 	return n
+}
+
+func zzPolicy(label string) (FlushPolicy, string, uint32) {
+	th := vf.U32(label + ".threshold")
+	switch vf.Choose(label, 5) {
+	case 0:
+		return &flushPolicyNone{}, "none", 0
+	case 1:
+		return &flushPolicyIntervalOnly{Interval: 1 << 40}, "interval", 0
+	case 2:
+		return &flushPolicyBufferSizeOnly{BufferSize: th}, "size", th
+	case 3:
+		return &flushPolicyIntervalOrBufferSize{BufferPolicy: &flushPolicyBufferSizeOnly{BufferSize: th}, IntervalPolicy: &flushPolicyIntervalOnly{Interval: 1 << 40}}, "either", th
+	}
+	return &flushPolicyImmediately{}, "immediate", 0
+}
+
+// C01.c / C20.b / C20.c: one accept step of flushLoop through the public WriteDataPoints.
+func zzC01cAccept() {
+	policy, kind, th := zzPolicy("policy")
+	w := zzNewWorld(message.QoSReliable, policy, newInmemSentStorage())
+	u := w.u
+	vf.AllMapOrders(true)
+	have := w.fillBuffer(1, 2)
+	// the buffered payload size is an arbitrary value not yet over the threshold (the invariant of a
+	// stream that has not cut yet); point payloads themselves stay tiny
+	p0 := vf.U32("buffered.size")
+	u.sendBufferPayloadSize = int(p0)
+	if kind == "size" || kind == "either" {
+		vf.Assume(p0 <= th)
+	}
+	total0, seq0 := vf.U64("total"), vf.U32("seq")
+	vf.Assume(total0 < 1<<62 && seq0 < 0xFFFFFFF0)
+	u.totalDataPoints = total0
+	u.sequence = newSequenceNumberGenerator(seq0)
+
+	ctx, cancel := context.WithCancel(context.Background())
+	defer cancel()
+	go u.flushLoop(ctx)
+
+	// incoming group: same id as a buffered one, or a new id; 0..2 points
+	var id *message.DataID
+	sameID := len(have) > 0 && vf.Choose("incoming.sameid", 2) == 1
+	if sameID {
+		c := have[0].id
+		id = &c
+	} else {
+		id = zzDataID("incoming")
+		for _, b := range have {
+			vf.Assume(b.id != *id)
+		}
+	}
+	pts := zzPoints("incoming", vf.Choose("incoming.n", 3))
+	s := 0
+	for _, p := range pts {
+		s += len(p.Payload)
+	}
+	err := u.WriteDataPoints(context.Background(), id, pts...)
+	vf.Settle()
+	vf.Assert("write-accepted", err == nil)
+
+	var all []zzBuffered
+	all = append(all, have...)
+	for _, p := range pts {
+		all = append(all, zzBuffered{*id, p})
+	}
+	cut := false
+	switch kind {
+	case "size", "either":
+		vf.Assume(int(p0)+s < 1<<32) // sizes below 2^32 (the code truncates the size to uint32)
+		cut = int(p0)+s > int(th)
+	case "immediate":
+		cut = true
+	}
+	chunks := w.chunks()
+	if cut {
+		vf.Assert("cut-exactly-one-chunk", len(chunks) == 1)
+		if len(chunks) == 1 {
+			w.assertChunkHolds(chunks[0], all)
+			vf.Assert("cut-number", chunks[0].StreamChunk.SequenceNumber == seq0+1)
+		}
+		vf.Assert("cut-buffer-empty", len(u.sendBuffer) == 0 && u.sendBufferPayloadSize == 0 && u.sendBufferDataPointsCount == 0)
+		vf.Assert("cut-total", u.totalDataPoints == total0+uint64(len(all)))
+		vf.Reach("cut")
+	} else {
+		vf.Assert("no-chunk-below-threshold", len(chunks) == 0 && len(w.log.ev) == 0)
+		vf.Assert("nothing-consumed", u.sequence.CurrentValue() == seq0 && u.totalDataPoints == total0)
+		// buffer gained exactly the incoming points, appended after the existing ones of that id
+		got := u.sendBuffer[*id]
+		var exp []*message.DataPoint
+		for _, b := range all {
+			if b.id == *id {
+				exp = append(exp, b.dp)
+			}
+		}
+		vf.Assert("buffer-id-len", len(got) == len(exp))
+		for i := range exp {
+			if i < len(got) {
+				vf.Assert("buffer-append-order", got[i] == exp[i])
+			}
+		}
+		vf.Assert("buffer-count", u.sendBufferDataPointsCount == len(all))
+		vf.Assert("buffer-size", u.sendBufferPayloadSize == int(p0)+s)
+		vf.Reach("kept")
+	}
+	// State(): sent + buffered grew by exactly the accepted count
+	st := u.State()
+	vf.Assert("state-conserved", st.TotalDataPoints+uint64(zzCount(st)) == total0+uint64(len(all)))
+	// the snapshot is a copy
+	if len(st.DataPointsBuffer) > 0 && len(st.DataPointsBuffer[0].DataPoints) > 0 {
+		st.DataPointsBuffer[0].DataPoints[0] = nil
+		st2 := u.State()
+		ok := true
+		for _, g := range st2.DataPointsBuffer {
+			for _, p := range g.DataPoints {
+				if p == nil {
+					ok = false
+				}
+			}
+		}
+		vf.Assert("snapshot-is-copy", ok)
+	}
+	vf.Assert("lock-free", vf.RUnlocked(&u.mu))
+}
+
+// C02.c: the per-chunk waiter tells ack / ack-timeout / cancellation apart: only the first two may
+// drop the stored chunk.
+func zzC02cWaiter() {
+	w := zzNewWorld(message.QoSReliable, &flushPolicyNone{}, newInmemSentStorage())
+	u := w.u
+	withTimeout := vf.Choose("ackTimeout.configured", 2) == 1
+	if withTimeout {
+		u.Config.AckTimeout = 50 * time.Millisecond
+	}
+	id := zzDataID("d")
+	u.sendBuffer[*id] = zzPoints("d", 1)
+	u.sendBufferDataPointsCount = 1
+	u.sendBufferPayloadSize = len(u.sendBuffer[*id][0].Payload)
+	seq0 := vf.U32("seq")
+	vf.Assume(seq0 != 0xFFFFFFFF)
+	u.sequence = newSequenceNumberGenerator(seq0)
+	runCtx, cancelRun := context.WithCancel(u.ctx)
+	defer cancelRun()
+	err := u.flush(runCtx)
+	vf.Settle()
+	vf.Assume(err == nil)
+	m, _ := u.sent.List(context.Background(), u.ID)
+	_, stored := m[seq0+1]
+	vf.Assert("stored-after-flush", stored && len(w.chunks()) == 1)
+
+	scenario := vf.Choose("scenario", 4)
+	vf.Known("KF-C02-cancel-delivers-nil", scenario == 2)
+	switch scenario {
+	case 0: // the broker acknowledges: the dispatcher hands the result to the waiter
+		u.processResult(runCtx, &message.UpstreamChunkResult{SequenceNumber: seq0 + 1, ResultCode: message.ResultCodeSucceeded})
+	case 1: // ack timeout elapses
+		vf.Assume(withTimeout)
+		vf.Advance(60 * time.Millisecond)
+	case 2: // the run context ends (disconnect): the chunk must stay stored for the resend
+		cancelRun()
+	case 3: // the stream itself is cancelled
+		u.cancel()
+	}
+	vf.Settle()
+	m2, _ := u.sent.List(context.Background(), u.ID)
+	_, still := m2[seq0+1]
+	switch scenario {
+	case 0:
+		vf.Assert("ack-removes", !still)
+		vf.Assert("ack-recorded", u.maxSequenceNumberInReceivedUpstreamChunkResults == seq0+1)
+	case 1:
+		vf.Assert("timeout-removes", !still)
+	case 2:
+		vf.Assert("disconnect-keeps-stored", still)
+	case 3:
+		vf.Assert("stream-cancel-keeps-stored", still)
+	}
+	vf.Reach("end")
+}
+
+// zzDefaultStorage returns the sent storage ConnectWithConfig installs when the caller configured
+// none — read from the real code: the config is filled in before the (here failing) dial.
+func zzDefaultStorage() sentStorage {
+	conf := defaultClientConfig
+	conf.Transport = "zz-no-such-transport"
+	_, err := ConnectWithConfig(&conf)
+	vf.Assume(err != nil)
+	return conf.sentStorage
+}
+
+// C02.b: after a resume a reliable stream retransmits every stored chunk under its original number
+// with its original content (payload included).
+func zzC02bResend() {
+	storage := zzDefaultStorage()
+	vf.Assert("default-storage-installed", storage != nil)
+	w := zzNewWorld(message.QoSReliable, &flushPolicyNone{}, storage)
+	u := w.u
+	wire.ZZStartAckLoop(w.wc)
+	vf.AllMapOrders(true)
+	n := 1 + vf.Choose("stored", 2)
+	type rec struct {
+		seq uint32
+		id  message.DataID
+		dp  *message.DataPoint
+	}
+	var recs []rec
+	anyPayload := false
+	for i := 0; i < n; i++ {
+		l := "c" + string(rune('0'+i))
+		seq := vf.U32(l + ".seq")
+		for _, r := range recs {
+			vf.Assume(r.seq != seq)
+		}
+		id := zzDataID(l)
+		dp := &message.DataPoint{ElapsedTime: zzDur(l + ".t"), Payload: vf.Bytes(l+".p", 1)}
+		if len(dp.Payload) > 0 {
+			anyPayload = true
+		}
+		recs = append(recs, rec{seq, *id, dp})
+		// what flush() does with a cut chunk
+		u.sent.Store(u.ctx, u.ID, seq, DataPointGroups{&DataPointGroup{DataID: id, DataPoints: DataPoints{dp}}})
+	}
+	vf.Known("KF-C02-default-storage-drops-payload", anyPayload)
+	w.st.stored = nil
+	w.log.ev = nil
+
+	done := make(chan error, 1)
+	go func() { done <- u.run(true) }()
+	// play the broker: acknowledge whatever chunk arrives, one at a time
+	acked := 0
+	for round := 0; round < n+1; round++ {
+		vf.Settle()
+		cs := w.chunks()
+		if len(cs) <= acked {
+			break
+		}
+		c := cs[acked]
+		acked++
+		wire.ZZDeliverAck(w.wc, &message.UpstreamChunkAck{StreamIDAlias: u.idAlias, Results: []*message.UpstreamChunkResult{{SequenceNumber: c.StreamChunk.SequenceNumber, ResultCode: message.ResultCodeSucceeded}}})
+	}
+	vf.Settle()
+	cs := w.chunks()
+	vf.Assert("one-resend-per-stored-chunk", len(cs) == n)
+	for _, r := range recs {
+		hits := 0
+		for _, c := range cs {
+			if c.StreamChunk.SequenceNumber != r.seq {
+				continue
+			}
+			hits++
+			vf.Assert("resend-alias", c.StreamIDAlias == u.idAlias)
+			vf.Assert("resend-one-group", len(c.StreamChunk.DataPointGroups) == 1)
+			if len(c.StreamChunk.DataPointGroups) == 1 {
+				g := c.StreamChunk.DataPointGroups[0]
+				id, ok := w.resolve(g)
+				vf.Assert("resend-id", ok && id == r.id)
+				vf.Assert("resend-one-point", len(g.DataPoints) == 1)
+				if len(g.DataPoints) == 1 {
+					vf.Assert("resend-elapsed-time", g.DataPoints[0].ElapsedTime == r.dp.ElapsedTime)
+					vf.Assert("resend-payload-same", zzBytesEq(g.DataPoints[0].Payload, r.dp.Payload))
+				}
+			}
+		}
+		vf.Assert("resend-original-number-once", hits == 1)
+	}
+	// acknowledged resends leave the store empty
+	m, _ := u.sent.List(context.Background(), u.ID)
+	vf.Assert("acked-resends-removed", len(m) == 0)
+	vf.Reach("end")
+}
+
+func zzBytesEq(a, b []byte) bool {
+	if len(a) != len(b) {
+		return false
+	}
+	for i := range a {
+		if a[i] != b[i] {
+			return false
+		}
+	}
+	return true
+}
+
+// C02.d: a non-reliable stream, on resume, clears its own stored chunks only.
+func zzC02dClearOwn() {
+	storage := zzDefaultStorage()
+	qos := message.QoSUnreliable
+	if vf.Choose("qos", 2) == 1 {
+		qos = message.QoSPartial
+	}
+	w := zzNewWorld(qos, &flushPolicyNone{}, storage)
+	u := w.u
+	other := zzUUID("other.id")
+	vf.Assume(other != u.ID)
+	oseq := vf.U32("other.seq")
+	og := zzGroups("other.g")
+	storage.Store(context.Background(), other, oseq, og)
+	u.sent.Store(u.ctx, u.ID, vf.U32("own.seq"), zzGroups("own.g"))
+	vf.Known("KF-C07-clear-wipes-all-streams", true)
+	go u.run(true)
+	vf.Settle()
+	own, _ := storage.List(context.Background(), u.ID)
+	vf.Assert("own-cleared", len(own) == 0)
+	vf.Assert("nothing-resent", len(w.chunks()) == 0)
+	oth, err := storage.List(context.Background(), other)
+	vf.Assert("other-stream-kept", err == nil && len(oth) == 1 && len(oth[oseq]) == 1)
+	vf.Reach("end")
 }
